@@ -411,6 +411,8 @@ def configs(draw, spec, force=(), forbid=(), p_on=0.5, params=True, split=True, 
             struct_names=True, fixed_modes=None, iter_match=False, p_vis=0.2, p_sorted=0.0):
     """A legal configuration for `spec` (see DESIGN 3.5)."""
     m = M.RefEnum(spec)
+    if isinstance(p_on, (list, tuple)):
+        p_on = draw(st.sampled_from(list(p_on)))        # sparse and dense feature sets alike
     chosen = []
     for f in E.ALL_FEATURES:
         if f in forbid:
